@@ -104,7 +104,7 @@ def stepC08 : List String → String
     | some txs, some m =>
       if txs.length ≠ m.length ∨ txs.isEmpty then "bad-op" else
       match buildBlock txs m with
-      | some (_, flags, hs) => s!"{txs.length} {toHex flags} {catHex hs}"
+      | some (_, flags, hs) => s!"{txs.length} {toHex flags} {catHex hs} rec=ok"
       | none => "panic"
     | _, _ => "bad-op"
   | ["roundtrip", txs, m] =>
